@@ -244,6 +244,8 @@ impl ActorCell {
         if let Some(r_name) = &name {
             crate::registry::register(r_name.clone(), cell.clone())?;
         }
+        #[cfg(slawlor_ractor_verif)]
+        crate::actor::verif::point("new.after_name");
 
         #[cfg(feature = "cluster")]
         if let Err(err) = crate::registry::pid_registry::register_pid(cell.get_id(), cell.clone()) {
@@ -346,6 +348,8 @@ impl ActorCell {
                 // unregistry from the PID registry
                 crate::registry::pid_registry::unregister_pid(self.get_id());
             }
+            #[cfg(slawlor_ractor_verif)]
+            crate::actor::verif::point("cleanup.after_pid");
             // If it's enrolled in the registry, remove it. Remote actors never
             // enroll, so they must not release a name a local actor may hold.
             if self.get_id().is_local() {
